@@ -476,7 +476,18 @@ def check_number_ops(ctx, rep):
             eblocks = {eb for eb, _v in errs}
             mkblocks = {bi for bi, _t in mk}
             p_err = PC.enumerate_paths(b, lambda x: x in eblocks)
-            p_ok = PC.enumerate_paths(b, lambda x: x in mkblocks)
+            okagg = {rb for rb in range(b.n) for st in b.blocks[rb]["stmts"] if st["k"] == "assign" and not st["lhs"]["p"] and st["lhs"]["l"] == 0 and st["rv"]["k"] == "agg" and st["rv"].get("variant") == "Ok"}
+            # a success that does not come out of make_with_unit (an early `return Ok(self)`) is a success all the same
+            mkdest = {t["dest"]["l"] for _bi, t in mk if not t["dest"]["p"]}
+            early = set()
+            for rb in okagg:
+                for st in b.blocks[rb]["stmts"]:
+                    if st["k"] == "assign" and st["rv"]["k"] == "agg" and st["rv"].get("variant") == "Ok" and st["lhs"]["l"] == 0:
+                        pls = [mir.op_place(o) for o in st["rv"]["ops"]]
+                        if not any(pl is not None and pl["l"] in mkdest for pl in pls):
+                            early.add(rb)
+            ok_targets = mkblocks | early
+            p_ok = PC.enumerate_paths(b, lambda x: x in ok_targets)
             atoms = PC.atoms_of(p_err + p_ok)
             E = next((a for a in atoms if a.startswith("eq(") and "_1.unit" in a and "_2.unit" in a), None)
             S1 = next((a for a in atoms if a.startswith("some(") and "_1.unit" in a and "_2.unit" not in a), None)
@@ -513,7 +524,31 @@ def check_number_ops(ctx, rep):
                 a0, a1 = repr(G.describe(b, uc[0][1]["args"][0])), repr(G.describe(b, uc[0][1]["args"][1]))
                 good = "_1.unit" in a0 and "_2.unit" in a1 and "_2.unit" not in a0 and "_1.unit" not in a1
             if good:
-                rep.ok("R-DIM", key, b.where(uc[0][0]), "two units combine through Unit %s Unit with self on the left" % ("*" if meth == "mul" else "/"))
+                from rules import pathcond as PC
+
+                mkb = {bi for bi, _t in mk}
+                paths = PC.enumerate_paths(b, lambda x: x in mkb)
+                atoms = PC.atoms_of(paths)
+                S1 = next((a for a in atoms if a.startswith("some(") and "_1.unit" in a and "_2.unit" not in a), None)
+                S2 = next((a for a in atoms if a.startswith("some(") and "_2.unit" in a and "_1.unit" not in a), None)
+                U = [a for a in atoms if want in a and a.startswith("is(")]
+                leak = None
+                for p in paths:
+                    lits = dict(p[1])
+                    if len(lits) < len(p[1]):
+                        continue
+                    both = (S1 is None or lits.get(S1) is not False) and (S2 is None or lits.get(S2) is not False)
+                    through = any(a in lits for a in U)
+                    if both and not through:
+                        leak = {a: tv for a, tv in lits.items()}
+                        break
+                if S1 is None or S2 is None or not U:
+                    good = False
+                elif leak is not None:
+                    rep.bad("R-DIM", "R-DIM:" + key + ":always", b.where(), "Number::%s produces a result for two numbers that both carry a unit without asking Unit %s Unit (path conditions %s): the unit of the result is not the %s of the operands' units" % (meth, "*" if meth == "mul" else "/", leak, "product" if meth == "mul" else "quotient"))
+                    continue
+            if good:
+                rep.ok("R-DIM", key, b.where(uc[0][0]), "two units combine through Unit %s Unit with self on the left, on every path where both are present" % ("*" if meth == "mul" else "/"))
             else:
                 rep.bad("R-DIM", "R-DIM:" + key, b.where(), "Number::%s does not combine the units as self.unit %s other.unit" % (meth, "*" if meth == "mul" else "/"))
     return n
@@ -618,4 +653,56 @@ def check_unit_identity(ctx, rep):
         rep.ok("R-DIM", "unit-identity:eq-reads-all-fields", body.where(), "Unit::eq compares %s" % sorted(read))
     else:
         rep.bad("R-DIM", "R-DIM:unit-identity:eq-reads-all-fields", body.where(), "Unit::eq ignores %s: distinct database units compare equal, so Number + and - accept operands of different units" % sorted(fields - read))
+    return 1
+
+
+# ---------------------------------------------------------------------- U8 approx_eq is symmetric
+def _sym_norm(v, swap):
+    """canonical text of a symbolic value with commutative operations sorted and |a - b| read as |b - a|; `swap` exchanges the two
+    parameters"""
+    if not v.args:
+        r = repr(v)
+        if swap:
+            r = re.sub(r"\b_1\b", "_X", r)
+            r = re.sub(r"\b_2\b", "_1", r)
+            r = r.replace("_X", "_2")
+        return r
+    args = [_sym_norm(a, swap) for a in v.args]
+    name = str(v.v)
+    if v.kind == "binop" and name in ("Add", "Mul", "Eq", "Ne", "BitAnd", "BitOr", "BitXor"):
+        args = sorted(args)
+    elif v.kind == "call" and name.split("::")[-1] in ("min", "max") and len(args) == 2:
+        args = sorted(args)
+    elif v.kind == "call" and name.split("::")[-1] == "abs" and len(v.args) == 1 and v.args[0].kind == "binop" and str(v.args[0].v) == "Sub":
+        inner = sorted(_sym_norm(a, swap) for a in v.args[0].args)
+        return "abs(Sub(%s))" % ", ".join(inner)
+    return "%s:%s(%s)" % (v.kind, name.split("::")[-1], ", ".join(args))
+
+
+def check_approx_eq_symmetric(ctx, rep):
+    """`approx_eq(a, b)` decides which database unit a product or quotient of units resolves to; as a notion of 'same scale' it must
+    not depend on the order of its operands. Every test the function performs is, after sorting commutative operations and reading
+    |a - b| as |b - a|, the same expression when a and b are exchanged. `b - a <= eps` is not: every larger scale would 'match'"""
+    prog = ctx.prog
+    b = prog.get("haystack::units::approx_eq")
+    if b is None:
+        rep.gap("approx_eq", "-", "not found")
+        return 0
+    tests = []
+    for bi in range(b.n):
+        for st in b.blocks[bi]["stmts"]:
+            if st["k"] == "assign" and st["rv"]["k"] == "binop" and st["rv"]["op"] in ("Eq", "Ne", "Lt", "Le", "Gt", "Ge") and b.local_ty(st["lhs"]["l"]) == "bool":
+                tests.append((bi, G.Val("binop", st["rv"]["op"], [G.describe(b, st["rv"]["a"]), G.describe(b, st["rv"]["b"])])))
+    asym = []
+    for bi, v in tests:
+        if v is None:
+            asym.append((bi, "a test whose operands are assigned on several paths"))
+        elif _sym_norm(v, False) != _sym_norm(v, True):
+            asym.append((bi, _sym_norm(v, False)))
+    if len(tests) >= 2 and not asym:
+        rep.ok("R-DIM", "approx_eq:symmetric", b.where(), "all %d tests are invariant under exchanging the operands" % len(tests))
+    elif asym:
+        rep.bad("R-DIM", "R-DIM:approx_eq:symmetric", b.where(asym[0][0]), "approx_eq tests %s, which changes when its operands are exchanged: whether two scales 'match' depends on which is larger" % asym[0][1][:160])
+    else:
+        rep.bad("R-DIM", "R-DIM:approx_eq:symmetric", b.where(), "approx_eq performs %d comparisons, expected the exact test and the tolerance test" % len(tests))
     return 1
